@@ -28,7 +28,7 @@ ASSUMPTIONS = ["sources are built with asynchronous=True and loop=IOLoop.current
                "loop); restartable iterables are iterators, as in the repository's own restart "
                "test (itertools.count())"]
 
-KINDS = ["periodic", "iterable", "q", "textfile"]
+KINDS = ["periodic", "iterable", "q", "textfile", "serverlike"]
 
 
 class H:
@@ -91,6 +91,7 @@ def case_strategy(draw, tier="quick"):
     steps = draw(st.lists(st.one_of(st.one_of(*acts).map(lambda a: [a]), pair), min_size=lo,
                           max_size=30))
     return {"kind": kind, "interval": iv, "mode": mode, "n": draw(st.integers(3, 8)),
+            "ctor_start": draw(st.sampled_from([False, False, True])),
             "actions": [a for s in steps for a in s]}
 
 
@@ -113,7 +114,22 @@ def execute(case):
             log.add("produce", k, h.last_cmd, log.now())
             return k
 
-        if kind == "periodic":
+        if case.get("ctor_start"):
+            kw["start"] = True          # started by the constructor
+            h.last_cmd = "start"
+            log.add("cmd", "start(ctor)", log.now())
+        if kind == "serverlike":
+            # a source in the style of from_tcp / from_http_server: run() sets something up and
+            # returns; the documented contract is the same (invoked by start(), once per start)
+            from streamz.sources import Source
+
+            class ServerLike(Source):
+                def run(self_):
+                    h.enter()
+                    self_.server = object()
+                    h.exit()
+            src = ServerLike(**kw)
+        elif kind == "periodic":
             src = instrument(from_periodic, h)(produce, poll_interval=case["interval"], **kw)
         elif kind == "iterable":
             def gen():
@@ -133,6 +149,8 @@ def execute(case):
             src = instrument(from_textfile, h)(rd, poll_interval=case["interval"], **kw)
         sk = src.sink(cons)
         restart_while_suspended = False
+        effective_starts = [1 if case.get("ctor_start") else 0]
+        last_start_idx = [0]
         prev = None
         for a in case["actions"]:
             op = a[0]
@@ -141,6 +159,13 @@ def execute(case):
             if op == "start":
                 if prev == "stop" and h.active > 0:
                     restart_while_suspended = True
+                # a start is effective when the source is stopped: after a stop command, or
+                # (from_iterable) after it stopped itself at the end of its iterable
+                self_stopped = kind == "iterable" and h.active == 0 and \
+                    any(e[0] == "loop-" for e in log.events[last_start_idx[0]:])
+                if h.last_cmd != "start" or self_stopped:
+                    effective_starts[0] += 1
+                    last_start_idx[0] = len(log.events)
                 h.last_cmd = "start"
                 log.add("cmd", "start", log.now())
                 src.start()
@@ -196,7 +221,13 @@ def execute(case):
         except OSError:
             pass
     name = {"periodic": "from_periodic", "iterable": "from_iterable", "q": "from_q",
-            "textfile": "from_textfile"}[kind]
+            "textfile": "from_textfile", "serverlike": "server-like Source"}[kind]
+    runs = sum(1 for e in ev if e[0] == "loop+")
+    if runs > effective_starts[0]:
+        v.append(("%s:run-invoked-without-a-start" % ID,
+                  "%s: run() was entered %d times for %d effective start commands (start on a "
+                  "started source must have no effect); commands: %s" % (
+                      name, runs, effective_starts[0], [e[1] for e in ev if e[0] == "cmd"])))
     if h.max_active > 1:
         v.append(("%s:two-polling-loops" % ID, "%s: %d polling loops active at once; commands: %s"
                   % (name, h.max_active, [e[1] for e in ev if e[0] == "cmd"])))
@@ -235,7 +266,8 @@ def execute(case):
                                   "item %d pulled while item %d was still being handled" % (
                                       e[1], prevk)))
                         break
-    classes = ["source:" + name, "consumer:" + case["mode"]]
+    classes = ["source:" + name, "consumer:" + case["mode"]] + \
+        (["started-by-constructor"] if case.get("ctor_start") else [])
     if restart_while_suspended:
         classes.append("stop-start-while-suspended")
     return Result(v, nontrivial=restart_while_suspended, classes=classes)
